@@ -43,10 +43,17 @@ pub fn scenario(idx: usize, seed: u64) -> ScenarioResult {
         q.keep_alive_interval_ms = Some(1_000);
         cfg.quic = Some(q);
         cfg.connect_timeout_ms = Some(20_000);
+        // how each side comes to dial: an explicit connect(), or the background dialer after the
+        // peer was entered in its table with High affinity (the dial then starts at the next
+        // connectivity check, 50-300 ms apart)
+        let bg_a = w.rng.gen_range(0..10) < 3;
+        let bg_b = w.rng.gen_range(0..10) < 3;
         let mut ca = NodeCfg::new(ka);
         ca.config = cfg.clone();
         let mut cb = NodeCfg::new(kb);
         cb.config = cfg;
+        ca.config.connectivity_check_interval_ms = Some(w.rng.gen_range(50..300));
+        cb.config.connectivity_check_interval_ms = Some(w.rng.gen_range(50..300));
         let a = w.start_node(ca).unwrap();
         let b = w.start_node(cb).unwrap();
         w.fabric.set_link(
@@ -80,13 +87,24 @@ pub fn scenario(idx: usize, seed: u64) -> ScenarioResult {
 
         let (na, nb) = (a.net.clone(), b.net.clone());
         let (addr_a, addr_b) = (a.addr, b.addr);
+        let (id_a, id_b) = (a.peer_id, b.peer_id);
+        async fn background(net: &anemo::Network, peer: anemo::PeerId, addr: std::net::SocketAddr) -> anyhow::Result<anemo::PeerId> {
+            net.known_peers().insert(anemo::types::PeerInfo { peer_id: peer, affinity: anemo::types::PeerAffinity::High, address: vec![addr.into()] });
+            for _ in 0..60_000 {
+                if net.peers().contains(&peer) {
+                    return Ok(peer);
+                }
+                tokio::time::sleep(Duration::from_millis(1)).await;
+            }
+            Err(anyhow::anyhow!("background dialing did not connect within 60 s"))
+        }
         let dial_a = async {
             tokio::time::sleep(off_a).await;
-            na.connect(addr_b).await
+            if bg_a { background(&na, id_b, addr_b).await } else { na.connect(addr_b).await }
         };
         let dial_b = async {
             tokio::time::sleep(off_b).await;
-            nb.connect(addr_a).await
+            if bg_b { background(&nb, id_a, addr_a).await } else { nb.connect(addr_a).await }
         };
         let (ra, rb) = tokio::join!(dial_a, dial_b);
         // the network becomes quiet: no more faults
@@ -99,6 +117,8 @@ pub fn scenario(idx: usize, seed: u64) -> ScenarioResult {
             "a": pid_hex(&a.peer_id), "b": pid_hex(&b.peer_id),
             "a_greater": a.peer_id > b.peer_id,
             "offset_us": off, "loss": loss, "dup": dup,
+            "a_dials_by": if bg_a { "background (High affinity)" } else { "connect()" },
+            "b_dials_by": if bg_b { "background (High affinity)" } else { "connect()" },
             "lat_us": [lat_lo.as_micros() as u64, lat_hi_ab.as_micros() as u64, lat_hi_ba.as_micros() as u64],
             "dial_a": format!("{:?}", ra.as_ref().map(pid_hex).map_err(|e| e.to_string())),
             "dial_b": format!("{:?}", rb.as_ref().map(pid_hex).map_err(|e| e.to_string())),
@@ -206,8 +226,8 @@ pub fn scenario(idx: usize, seed: u64) -> ScenarioResult {
         let stats = w.fabric.stats();
         let res = if problems.is_empty() {
             let sig = format!(
-                "a_greater={} A={} B={} survivor={}",
-                a.peer_id > b.peer_id, sa, sb, survivor
+                "a_greater={} A={} B={} survivor={} bg={}",
+                a.peer_id > b.peer_id, sa, sb, survivor, bg_a as u8 + bg_b as u8
             );
             ScenarioResult::held(sig).with_sample(witness)
         } else {
@@ -218,7 +238,11 @@ pub fn scenario(idx: usize, seed: u64) -> ScenarioResult {
             .count("datagrams_sent", stats.sent)
             .count("datagrams_lost", stats.lost)
             .count("datagrams_duplicated", stats.duplicated)
-            .count(&format!("survivor_{survivor}"), 1)
+            // (with a background side the second dial may never start - the peer is connected before
+            // the next connectivity check - so the cross-scenario survivor rule is only fed by
+            // scenarios in which both sides dialed explicitly)
+            .count(&if bg_a || bg_b { "survivor_not_compared_background_side".to_owned() } else { format!("survivor_{survivor}") }, 1)
+            .count("mutual_dials_with_a_background_side", (bg_a || bg_b) as u64)
             .count("mutual_dials_completed", 1);
         finish(res)
     })
